@@ -951,6 +951,14 @@ impl Running {
                 if sent2 == sent && self.done() == processed && self.log_len() == processed {
                     return;
                 }
+                // the engine task has ended in the MIDDLE of an event (the event was handed to the
+                // clock, its audit was never built): it panicked - e.g. the 0/0 of the position
+                // arithmetic outside the input guard PosOps (Lean `TradingLoop.tickPanics`). Nothing
+                // after this is observable: the case ends with `panic`, like every panic of the code
+                // under test
+                if self.engine_finished() && self.log_len() > self.done() && self.done() == processed {
+                    panic!("engine task panicked");
+                }
             } else if self.iterator {
                 std::thread::sleep(std::time::Duration::from_micros(50));
             }
@@ -1284,11 +1292,19 @@ fn gen_case(out: &mut Out, rng: &mut Rng, id: &str, thorough: bool) {
             format!("c:0:{i}:{cid}")
         }
     };
+    // 45 % of the cases stay inside the class the ops-level specification determines (no
+    // close_positions / cancel_orders command: their requests depend on what the engine has heard),
+    // so that the independent oracle keys are stated for every block of the case (review B C20E-1)
+    let det_case = rng.chance(45);
     let segments = rng.range(1, if thorough { 8 } else { 5 });
     for _ in 0..segments {
         let n_ops = rng.range(0, 3);
         for _ in 0..n_ops {
-            match rng.below(12) {
+            let mut pick = rng.below(12);
+            if det_case && (pick == 8 || pick == 9) {
+                pick = if pick == 8 { 3 } else { 7 };
+            }
+            match pick {
                 0 | 1 | 2 => {
                     let n = rng.range(1, 3);
                     let mut line = String::from("mkt");
